@@ -37,7 +37,7 @@ def main(c):
     c.assumptions += [
         "UAX#29 segmentation and widths are logged facts from rivo/uniseg (trusted base)",
         "input is UTF-8: no 8-bit C1 controls; a non-ASCII scalar inside an escape/control sequence cancels it and whether it is printed is unconstrained",
-        "more than 16 CSI parameters: only the first 16 are prescribed",
+        "more than 16 CSI parameters: only the first 16 are prescribed; a parameter value of 19 digits or more (beyond a 64-bit integer) is unconstrained, smaller ones are compared exactly as digit sequences",
     ]
     if not c.replay:
         c.model_check(specs, "MC_VT500.tla", "MC_VT500.cfg" if c.tier == "quick" else "MC_VT500_deep.cfg", workers=16)
